@@ -8,11 +8,14 @@ Proof. vm_compute. reflexivity. Qed.
 (* ... and it is not vacuous: each of these realistic slips is rejected *)
 Definition tbl_with (m : member) (ops : list mop) (m' : member) : list mop :=
   if match m, m' with
-     | OA_Resize, OA_Resize | OA_Copy, OA_Copy | OA_Reset, OA_Reset | FV_C, FV_C | OA_Move, OA_Move | FA_AVec, FA_AVec => true
+     | OA_ResetPtr, OA_ResetPtr | OA_Resize, OA_Resize | OA_Copy, OA_Copy | OA_Reset, OA_Reset | FV_C, FV_C | OA_Move, OA_Move | FA_AVec, FA_AVec => true
      | _, _ => false end
   then ops else model_table m'.
 Lemma checker_rejects_slips :
   check_table (tbl_with OA_Resize [MBufResize]) = false /\
+  check_table (tbl_with OA_ResetPtr [MSelfReset; MBufRange; MSetPtr PBufData NBufSize]) = false /\
+  failing_configs (tbl_with OA_ResetPtr [MSelfReset; MBufRange; MSetPtr PBufData NBufSize])
+    = [(OA_ResetPtr, ResetWrap 0 0 0 3); (OA_ResetPtr, ResetWrap 0 0 1 2); (OA_ResetPtr, ResetWrap 0 0 1 1); (OA_ResetPtr, ResetWrap 1 1 0 1)] /\
   check_table (tbl_with OA_Copy [MBufCopyOther]) = false /\
   check_table (tbl_with OA_Reset [MBufClear; MBufShrink]) = false /\
   check_table (tbl_with OA_Move [MBufMoveOther; MSetPtr PBufData NBufSize]) = false /\
